@@ -115,8 +115,35 @@ fn main() {
                 .join()
                 .unwrap_or_else(|_| Err("replay thread panicked outside the code under test".to_string()))
         };
-        let a = once(case.clone());
-        let b = once(case.clone());
+        // (complaints may quote raw addresses of slices - pointer identity is part of some
+        // oracles -; they differ from run to run and are masked before the comparison)
+        fn mask(r: Result<String, String>) -> Result<String, String> {
+            fn m(s: String) -> String {
+                let mut out = String::with_capacity(s.len());
+                let mut run = String::new();
+                for ch in s.chars().chain(std::iter::once(' ')) {
+                    if ch.is_ascii_digit() {
+                        run.push(ch);
+                    } else {
+                        if run.len() >= 12 {
+                            out.push_str("<addr>");
+                        } else {
+                            out.push_str(&run);
+                        }
+                        run.clear();
+                        out.push(ch);
+                    }
+                }
+                out.pop();
+                out
+            }
+            match r {
+                Ok(s) => Ok(s),
+                Err(e) => Err(m(e)),
+            }
+        }
+        let a = mask(once(case.clone()));
+        let b = mask(once(case.clone()));
         if a != b {
             eprintln!("replay diverged between two executions of the same case:\n  1: {:?}\n  2: {:?}", a, b);
             if id == "C20" {
